@@ -21,7 +21,7 @@ def intD (j : Json) (k : String) : Int :=
 
 def caseOf (j : Json) : R Case := do
   pure { scenario := ← strF j "scenario", panicSite := ← strF j "panicSite", coolDownNs := ← natF j "coolDownNs",
-         intervalNs := ← natF j "intervalNs", latencyNs := ← natF j "latencyNs", services := ← natF j "services", work := natD j "work",
+         intervalNs := ← natF j "intervalNs", latencyNs := ← natF j "latencyNs", services := ← natF j "services", work := natD j "work", holdCtx := boolD j "holdCtx" false,
          auxMax := ← natF j "auxMax" }
 
 /-- canonical observation from the harness's `impl` object -/
@@ -44,6 +44,7 @@ def obsOf (impl : Json) : Obs :=
     closedAtNs := natD impl "closedAtNs",
     closePanicked := (match impl.getObjVal? "closePanic" with | .ok (.str p) => p != "" | _ => false),
     firstCloseBad := (match impl.getObjVal? "firstClose" with | .ok (.obj kvs) => !kvs.isEmpty | _ => false),
+    soonLeft := (let l := fieldD impl "leakedSoon" (Json.mkObj []); natD l "serviceStart" + natD l "service" + natD l "aux" + natD l "inflight"),
     roundsBlocked := natD impl "roundsBlocked",
     progress := natD impl "progress",
     errNotRunning := nNR, errNotStarted := nNS, errOther := nOther,
@@ -247,7 +248,7 @@ def handle (input impl : Json) : R Reply := do
   let m := predict current cs o.closedAtNs o.errNotRunning o.errNotStarted (o.closeCalled || (cs.scenario == "close")) (if died then 1 else o.panicsInjected)
   let agreeLive :=
     o.closeReturned == m.closeReturned && decide (o.errOther = 0) &&
-    o.closePanicked == m.closePanicked && o.firstCloseBad == m.firstCloseBad &&
+    o.closePanicked == m.closePanicked && o.firstCloseBad == m.firstCloseBad && lingerOk cs o == lingerOk cs m &&
     (!progressDue cs o || (decide (o.progress > 0) == decide (m.progress > 0))) &&
     decide (o.errNotRunning = m.errNotRunning) && decide (o.errNotStarted = m.errNotStarted) &&
     decide (o.leakedServiceStart = m.leakedServiceStart) && decide (o.leakedService = m.leakedService) &&
@@ -266,6 +267,7 @@ def handle (input impl : Json) : R Reply := do
     (if !traced then ["untraced"] else if trRej > 0 then ["trace-rejected"] else if trInc > 0 then ["trace-search-inconclusive"] else ["trace-accepted"]) ++
     (match input.getObjVal? "shape" with | .ok (.str h) => if h != "" then ["shape:" ++ h] else [] | _ => []) ++
     (if boolD input "rounds" false then ["rounds"] else []) ++
+    (if boolD input "holdCtx" false then ["held-until-cancelled"] else []) ++
     (if boolD input "repeatWork" false then ["repeat-work"] else []) ++
     (match input.getObjVal? "runner" with | .ok (.obj _) => ["runner-config"] | _ => []) ++
     (match input.getObjVal? "offchain" with | .ok (.str h) => if h != "" then ["offchain-config"] else [] | _ => []) ++
@@ -279,9 +281,9 @@ def handle (input impl : Json) : R Reply := do
     (if cs.scenario == "panic-close" && decide (closeAt < cs.coolDownNs) then ["close-soon-after-panic"] else []) ++
     (if natD input "work" > 0 then ["work-in-flight"] else []) ++
     (if cs.scenario == "close" then ["close-at:" ++ closeAtBucket closeAt] else [])
-  let key := s!"{(asStr (fieldD input "shape" (.str ""))).toOption.getD ""}/{boolD input "repeatWork" false}/{boolD input "rounds" false}/{(fieldD input "runner" .null).compress}/{(asStr (fieldD input "offchain" (.str ""))).toOption.getD ""}|r{natD input "reuse"}/{natD input "reuseRunNs"}/{natD input "reuseGapNs"}/{(asStr (fieldD input "reuseCfg" (.str ""))).toOption.getD ""}|{(asStr (fieldD input "family" (.str ""))).toOption.getD ""}|{(asStr (fieldD input "holdSite" (.str ""))).toOption.getD ""}|{natD input "holdNs"}|{natD input "holdAtCall"}|{cs.scenario}|{cs.panicSite}|{closeAtBucket closeAt}|y{natD input "yields"}|p{natD input "preYields"}|w{natD input "work"}|l{cs.latencyNs}|a{natD input "panicAtCall"}c{natD input "panicCount"}|{closeAt}|nr{o.errNotRunning}ns{o.errNotStarted}"
+  let key := s!"{boolD input "holdCtx" false}|{(asStr (fieldD input "shape" (.str ""))).toOption.getD ""}/{boolD input "repeatWork" false}/{boolD input "rounds" false}/{(fieldD input "runner" .null).compress}/{(asStr (fieldD input "offchain" (.str ""))).toOption.getD ""}|r{natD input "reuse"}/{natD input "reuseRunNs"}/{natD input "reuseGapNs"}/{(asStr (fieldD input "reuseCfg" (.str ""))).toOption.getD ""}|{(asStr (fieldD input "family" (.str ""))).toOption.getD ""}|{(asStr (fieldD input "holdSite" (.str ""))).toOption.getD ""}|{natD input "holdNs"}|{natD input "holdAtCall"}|{cs.scenario}|{cs.panicSite}|{closeAtBucket closeAt}|y{natD input "yields"}|p{natD input "preYields"}|w{natD input "work"}|l{cs.latencyNs}|a{natD input "panicAtCall"}c{natD input "panicCount"}|{closeAt}|nr{o.errNotRunning}ns{o.errNotStarted}"
   pure { agree := agree, specModel := sm, specImpl := si,
-         diff := if agree then "" else if trRej > 0 then s!"trace rejected ({trRej} of {trAcc + trRej + trInc} recoverers): {trMsg}" else s!"model: survived={m.survived} closeReturned={m.closeReturned} notRunning={m.errNotRunning} notStarted={m.errNotStarted} serviceStart={m.leakedServiceStart} service={m.leakedService} bubbleEnded={m.bubbleEnded} resumed={m.resumed}; impl: survived={o.survived} closeReturned={o.closeReturned} notRunning={o.errNotRunning} notStarted={o.errNotStarted} serviceStart={o.leakedServiceStart} service={o.leakedService} bubbleEnded={o.bubbleEnded} resumed={o.resumed} errOther={o.errOther}",
+         diff := if agree then "" else if trRej > 0 then s!"trace rejected ({trRej} of {trAcc + trRej + trInc} recoverers): {trMsg}" else s!"model: survived={m.survived} closeReturned={m.closeReturned} notRunning={m.errNotRunning} notStarted={m.errNotStarted} serviceStart={m.leakedServiceStart} service={m.leakedService} bubbleEnded={m.bubbleEnded} resumed={m.resumed} leftAfter1s={m.soonLeft}; impl: survived={o.survived} closeReturned={o.closeReturned} notRunning={o.errNotRunning} notStarted={o.errNotStarted} serviceStart={o.leakedServiceStart} service={o.leakedService} bubbleEnded={o.bubbleEnded} resumed={o.resumed} leftAfter1s={o.soonLeft} errOther={o.errOther}",
          fail := fail, nontrivial := true, tags := tags, key := key }
 
 end AutoVerif.C18
